@@ -1065,8 +1065,38 @@ type builtNode struct {
 }
 
 func (c *Ctx) builtNodes(v ssa.Value) ([]builtNode, bool) {
+	return c.builtNodesRec(v, nil, 0)
+}
+
+// translate: a value of a helper expressed in the outermost caller's terms
+// (a helper parameter becomes the argument it was called with).
+func translate(v ssa.Value, subst map[*ssa.Parameter]ssa.Value) ssa.Value {
+	if v == nil || subst == nil {
+		return v
+	}
+	for p, arg := range subst {
+		if v == p {
+			return arg
+		}
+		if ld, ok := v.(*ssa.UnOp); ok {
+			if al, ok := ld.X.(*ssa.Alloc); ok && paramSpill(p) == al {
+				return arg
+			}
+		}
+	}
+	return v
+}
+
+func (c *Ctx) builtNodesRec(v ssa.Value, outer map[*ssa.Parameter]ssa.Value, depth int) ([]builtNode, bool) {
 	if sh := c.nodeShapeOf(v); sh != nil {
-		return []builtNode{{val: v, shape: sh}}, true
+		if sh.NodeTypeParam != nil && outer != nil {
+			if k, ok := constInt(outer[sh.NodeTypeParam]); ok {
+				cp := *sh
+				cp.NodeType = c.A.NTName[k]
+				sh = &cp
+			}
+		}
+		return []builtNode{{val: v, shape: sh, subst: outer}}, true
 	}
 	var call *ssa.Call
 	switch x := v.(type) {
@@ -1077,17 +1107,21 @@ func (c *Ctx) builtNodes(v ssa.Value) ([]builtNode, bool) {
 			call, _ = x.Tuple.(*ssa.Call)
 		}
 	}
-	if call == nil {
+	if call == nil || depth > 4 {
 		return nil, false
 	}
 	callee := staticCallee(call)
-	if callee == nil || callee.Pkg != c.SLib || callee.Blocks == nil || c.movesCursor(callee) {
+	if callee == nil || callee.Pkg != c.SLib || callee.Blocks == nil {
 		return nil, false
+	}
+	switch callee {
+	case c.A.ParseExpr, c.A.Nud, c.A.Led, c.A.ParseDotRHS, c.A.ParseProjRHS, c.A.Parse:
+		return nil, false // a parsed operand, not a node built for this operator
 	}
 	subst := map[*ssa.Parameter]ssa.Value{}
 	for i, p := range callee.Params {
 		if i < len(call.Call.Args) {
-			subst[p] = call.Call.Args[i]
+			subst[p] = translate(call.Call.Args[i], outer)
 		}
 	}
 	var out []builtNode
@@ -1100,40 +1134,19 @@ func (c *Ctx) builtNodes(v ssa.Value) ([]builtNode, bool) {
 		if len(res) == 0 || !c.isASTNode(res[0].Type()) {
 			return nil, false
 		}
-		sh := c.nodeShapeOf(res[0])
-		if sh == nil {
-			return nil, false
-		}
-		if sh.Zero {
+		if sh := c.nodeShapeOf(res[0]); sh != nil && sh.Zero {
 			continue
 		}
-		if sh.NodeTypeParam != nil {
-			if k, ok := constInt(subst[sh.NodeTypeParam]); ok {
-				cp := *sh
-				cp.NodeType = c.A.NTName[k]
-				sh = &cp
-			}
+		sub, ok := c.builtNodesRec(res[0], subst, depth+1)
+		if !ok {
+			return nil, false
 		}
-		out = append(out, builtNode{val: res[0], shape: sh, subst: subst})
+		out = append(out, sub...)
 	}
 	return out, len(out) > 0
 }
 
 // child: the caller-level value stored as child k.
 func (c *Ctx) builtChild(bn builtNode, k int) ssa.Value {
-	v := c.childValue(bn.val, k)
-	if v == nil || bn.subst == nil {
-		return v
-	}
-	for p, arg := range bn.subst {
-		if v == p {
-			return arg
-		}
-		if ld, ok := v.(*ssa.UnOp); ok {
-			if al, ok := ld.X.(*ssa.Alloc); ok && paramSpill(p) == al {
-				return arg
-			}
-		}
-	}
-	return v
+	return translate(c.childValue(bn.val, k), bn.subst)
 }
